@@ -188,6 +188,24 @@ def check_string(ctx, case):
             detail['sibling_ok'] = _sibling_ok(ctx, case, denot, T, tname)
         ctx.violation('formula(%r): %s' % (text, problems[0]), **detail)
     ctx.distinct_case(('pos', case.get('shape') or text))
+    # the same string again, in the other table and once more in this one: the result must not
+    # depend on what was parsed before (one grammar is cached per table)
+    if case.get('again') and not problems:
+        other = 'private' if tname == 'public' else 'public'
+        for tn in (other, tname):
+            TT = _s['tables'][tn]
+            ctx.count('reparse.' + tn)
+            try:
+                g = pt.formula(text, table=TT)
+            except Exception as exc:
+                ctx.violation('formula(%r, table=%s) raised %s on re-parse after a parse with the %s table'
+                              % (text, tn, type(exc).__name__, tname), reparse=tn)
+                break
+            p2 = _compare(ctx, g, denot, case, TT, tn, case.get('depth', 0))
+            if p2:
+                ctx.violation('formula(%r, table=%s) re-parsed after a parse with the %s table: %s'
+                              % (text, tn, tname, p2[0]), reparse=tn, problems=p2[:3])
+                break
 
 
 def _sibling_ok(ctx, case, denot, T, tname):
@@ -336,6 +354,8 @@ def generate(ctx):
         case, denot = _case_of(node, tname, node.depth)
         if node.flags:
             case['safe_text'] = _safe_text(node)
+        if rng.random() < 0.15:
+            case['again'] = True
         if case.get('safe_text') is None and node.flags:
             continue
         yield 'string', case
